@@ -1,3 +1,4 @@
+import GqlProofs.Gen.Accounted
 import GqlProofs.Validate.Determinism
 /-
   C10 — validation is deterministic and repeatable (model side).
@@ -91,3 +92,14 @@ example : SameMaps
 #print axioms C10_suggestions_order_dependent_counterexample
 #print axioms C10_view_order_irrelevant
 #print axioms C10_validate_deterministic
+
+/-! ### facts regenerated from /repo's sources on every run (GqlModel/Gen/Facts.lean) -/
+
+/-- Every `range` over a map and every reflect MapKeys/MapRange in the library's non-test code is
+    one of the classified sites of `Gen.accountedMapRanges` (none is order-relevant for a result). -/
+theorem C10_gen_map_ranges_accounted :
+    ∀ s ∈ Gql.Gen.mapRanges, (Gql.Gen.accountedMapRanges.lookup s).isSome := by decide
+
+/-- Every call into package sort is a deterministic one (Strings / SliceStable): no unstable sort. -/
+theorem C10_gen_sorts_stable :
+    ∀ s ∈ Gql.Gen.sortCalls, s.2 ∈ Gql.Gen.stableSortFuncs := by decide
